@@ -56,13 +56,14 @@ def run_ref(ctx, src_db, cmd, ref):
 
 
 def run(ctx):
-    ndata, per = (3, 5) if ctx.tier == "quick" else (12, 40)
+    ndata, per = (4, 5) if ctx.tier == "quick" else (12, 40)
     rng = ctx.rng
     ob = "accepted/refused and the level at which the curve is zero = model refIndex on the typed decimals"
     for d_i in range(ndata):
         # water levels near the datum, or metres below / above it (well head far from the peat surface)
         tr = P.gen_truth(rng, noise=rng.choice([0.0, 0.4]),
-                         datum=(0.0 if d_i % 3 == 0 else float(rng.choice([-1, 1]) * rng.randint(900, 4000))))
+                         datum=(0.0 if d_i % 4 == 0 else
+                                (-1.0 if d_i % 4 == 2 else 1.0) * float(int(10 ** rng.uniform(3.0, 5.3)))))   # 1 m ... 200 m
         long_dry = d_i == 1
         if long_dry:
             # a long dry season: recession curve of 1e7 s (the storms must rise more than 2 mm/h per step)
